@@ -167,7 +167,7 @@ Fixpoint run (fuel : nat) (s : strictness) (src : str) (r : req) (a : agg) {stru
         end
     | RLoop gs cs =>
         match gs with
-        | [] => (ROk true, a)                                    (* empty goal children: Return *)
+        | [] => (ROk (forallb (should_skip_trailing s) cs), a)   (* empty goal children: all (zero) goals found *)
         | g :: gs1 =>
             match ellipsis_mode g with
             | None => run f s src (RSkip gs cs) a                (* Fallthrough *)
